@@ -94,6 +94,10 @@ def run(ctx, deps=True):
 
 
 def _cause(eng, p, x, T, U, tv, uv, pairs):
+    from . import refuted_at_defaults
+
+    if refuted_at_defaults(eng, "authentication.verify_root", (T[1], U[1]), set(p.facts) | set(x.conds)):
+        return "an optional parameter outside the documented signature has a non-default value"
     top = x.chain[0]
     facts = p.facts
     st = State(facts=facts)
